@@ -10,20 +10,24 @@ T3 == <<0, 102, 0, 102, 0, 105>>                       \* "ffi": three units, tw
 T3F == <<0, 102, 0, 102, 0, 255>>                      \* three units, the last byte carries
 T4 == <<216, 52, 221, 30, 0, 65, 0, 66>>               \* a surrogate pair and "AB": four units, four bytes of prefix
 T4F == <<0, 65, 0, 66, 216, 52, 221, 255>>             \* "AB" and a surrogate pair whose last byte carries (DDFF -> DE00)
+TE == <<>>                                             \* the empty target: the code has the empty text
 Targets == {TA, TF, TAB, TAF}
 LongTargets == {T3, T3F, T4, T4F}
 CodeVals == {0, 1, 255, 256, 257}
 Ranges == {<<0, 1>>, <<1, 1>>, <<255, 256>>, <<255, 257>>, <<256, 257>>, <<1, 0>>}
 Z == [t |-> "", lo |-> 0, hi |-> 0, tgt |-> <<>>, arr |-> <<>>]
-BfChars == {[Z EXCEPT !.t = "bfchar", !.lo = c, !.tgt = t] : c \in CodeVals, t \in Targets \cup {TS, T3}}
+BfChars == {[Z EXCEPT !.t = "bfchar", !.lo = c, !.tgt = t] : c \in CodeVals, t \in Targets \cup {TS, T3, TE}}
 BfRanges == {[Z EXCEPT !.t = "bfrange", !.lo = r[1], !.hi = r[2], !.tgt = t] : r \in Ranges, t \in Targets \cup LongTargets}
-BfArrs == {[Z EXCEPT !.t = "bfrarr", !.lo = r[1], !.hi = r[2], !.arr = a] : r \in Ranges, a \in {<<TA>>, <<TF, TAB>>, <<TAB, TA, TF>>}}
+            \cup {[Z EXCEPT !.t = "bfrange", !.lo = 1, !.hi = 1, !.tgt = TE]}      \* increment form, empty base, one code
+BfArrs == {[Z EXCEPT !.t = "bfrarr", !.lo = r[1], !.hi = r[2], !.arr = a] : r \in Ranges, a \in {<<TA>>, <<TF, TAB>>, <<TAB, TA, TF>>, <<TE, TA>>}}
 Marks == {[Z EXCEPT !.t = "endcmap"], [Z EXCEPT !.t = "begincmap"],
           [Z EXCEPT !.t = "junkchar", !.lo = 1], [Z EXCEPT !.t = "junkrange", !.lo = 0, !.hi = 1]}
 MCEntries == BfChars \cup BfRanges \cup BfArrs \cup Marks
 \* a smaller alphabet for three-entry sequences in the quick tier
-SmallEntries == {e \in MCEntries : (e.t = "bfchar" => e.lo \in {1, 256} /\ e.tgt \in {TA, TAB})
-                                   /\ (e.t = "bfrange" => <<e.lo, e.hi>> \in {<<0, 1>>, <<255, 257>>} /\ e.tgt \in {TF, TAF, T3F, T4})
+SmallEntries == {e \in MCEntries : (e.t = "bfchar" => e.lo \in {1, 256} /\ e.tgt \in {TA, TAB, TE})
+                                   /\ (e.t = "bfrange" => (<<e.lo, e.hi>> \in {<<0, 1>>, <<255, 257>>} /\ e.tgt \in {TF, TAF, T3F, T4}) \/ e.tgt = TE)
                                    /\ (e.t = "bfrarr" => <<e.lo, e.hi>> \in {<<0, 1>>, <<255, 257>>} /\ Len(e.arr) = 2)}
+AllDev == {"EmptyIncrementBase"}
+NoDev == {}
 MCCidDom == {0, 1, 2, 255, 256, 257, 258}
 ====
